@@ -1,5 +1,5 @@
 """Rule registry: name -> callable(ctx, prop) -> RuleResult | [RuleResult]."""
-from . import trav, exh, backend, names, fields, compiler, memory, purity, determinism, patterns, unify, provenance, simplify, frontend, forwarding, guard, layer
+from . import trav, exh, backend, names, fields, compiler, memory, purity, determinism, patterns, unify, provenance, simplify, frontend, forwarding, guard, layer, instr
 
 
 def _trav_scoped(classes, name):
@@ -67,6 +67,8 @@ RULES = {
     "UFOWN": provenance.rule_ufown,
     "EQVSHAPE": provenance.rule_eqvshape,
     "NOPROV": provenance.rule_noprov,
+    "INSTRLINT": instr.rule_instrlint,
+    "INSTRSPEC": instr.rule_instrspec,
     "GUARD": guard.rule_guard,
     "LAYER": layer.rule_layer,
     "VERDICT": layer.rule_verdict,
